@@ -407,22 +407,30 @@ func ClearRulesOfResource(res string) error {
 // BuildResourceCircuitBreaker builds CircuitBreaker slice from rules. the resource of rules must be equals to res
 func BuildResourceCircuitBreaker(res string, rulesOfRes []*Rule, oldResCbs []CircuitBreaker) []CircuitBreaker {
 	newCbsOfRes := make([]CircuitBreaker, 0, len(rulesOfRes))
-	for _, r := range rulesOfRes {
+	// First pair every unchanged rule with its old breaker. Doing this in the same pass as the statistic
+	// reuse below let a new or modified rule listed earlier take the old breaker of an unchanged rule as
+	// its statistic donor, so the unchanged rule got a new breaker and lost its state (e.g. Open).
+	unchangedCbs := make(map[int]CircuitBreaker, len(rulesOfRes))
+	for i, r := range rulesOfRes {
+		if res != r.Resource {
+			continue
+		}
+		if equalIdx, _ := calculateReuseIndexFor(r, oldResCbs); equalIdx >= 0 {
+			// reuse the old cb and remove it from oldResCbs
+			unchangedCbs[i] = oldResCbs[equalIdx]
+			oldResCbs = append(oldResCbs[:equalIdx], oldResCbs[equalIdx+1:]...)
+		}
+	}
+	for i, r := range rulesOfRes {
 		if res != r.Resource {
 			logging.Error(errors.Errorf("unmatched resource name expect: %s, actual: %s", res, r.Resource), "Unmatched resource name in circuitBreaker.BuildResourceCircuitBreaker()", "rule", r)
 			continue
 		}
-		equalIdx, reuseStatIdx := calculateReuseIndexFor(r, oldResCbs)
-
-		// First check equals scenario
-		if equalIdx >= 0 {
-			// reuse the old cb
-			equalOldCb := oldResCbs[equalIdx]
+		if equalOldCb, ok := unchangedCbs[i]; ok {
 			newCbsOfRes = append(newCbsOfRes, equalOldCb)
-			// remove old cb from oldResCbs
-			oldResCbs = append(oldResCbs[:equalIdx], oldResCbs[equalIdx+1:]...)
 			continue
 		}
+		_, reuseStatIdx := calculateReuseIndexFor(r, oldResCbs)
 
 		generator := cbGenFuncMap[r.Strategy]
 		if generator == nil {
